@@ -14,9 +14,9 @@ from props import state_tie as ST
 PID = 'C10'
 GENERATORS = FC.GENERATORS
 META = {
-    'text': 'Coq theorems over a model of pl.state.FSM that interprets the transition table regenerated from pl/state.dot on every run: every state change in every run (hand-fired and nested triggers included) is a table edge; a trigger without an edge is rejected leaving the whole state unchanged; active iff running and not transitioning; under the environment given by the generated trigger call sites (single submit endpoint) the machine always returns to rest within 6 completions (partial: the two-endpoint environment is refuted with a witness, open finding). The real FSM and submit Process classes are run event by event against the model with deferred steps scheduled by the case.',
-    'note': 'Trusted: Coq kernel; dot2coq.py (own dot parser cross-checked against pydot each run; call-site scan); hand-written Model/Fsm.v tied by correspondence; fakes for deferToThread/reactor/db/scan/git only. Modelled not verified: transitions.Machine semantics, background steps complete without raising. No axioms.',
-    'technique': 'Coq proof over source-generated table + invariants + model/implementation correspondence with case-controlled interleaving',
+    'text': 'Coq theorems over a model of pl.state.FSM that interprets the transition table regenerated from pl/state.dot on every run: every state change in every run (hand-fired and nested triggers included) is a table edge; a trigger without an edge is rejected leaving the whole state unchanged; active iff running and not transitioning; under the environment given by the generated trigger call sites (single submit endpoint) the machine always returns to rest within 6 completions (partial: the two-endpoint environment is refuted with a witness, open finding). The real FSM and submit Process classes are run event by event against the model with deferred steps scheduled by the case. Source tie: the transitioning setter, is_pipeline_active, every callback named in state.dot (start, load, navel_gaze, save_prior_state, archive/_archive_done, reload, reset) and every completion (load.done, _navel_gaze, reload.done) are regenerated from pl/state.py on every run (state2coq.py -> Gen/StateGen.v) and PROVED equal to run_cb / complete of Model/Fsm.v (C10_*_source).',
+    'note': 'Trusted: Coq kernel; dot2coq.py (own dot parser cross-checked against pydot each run; call-site scan); state2coq.py (validated each run by 504 single method calls on a real FSM object); Model/Fsm.v: method bodies tied by translation + proof, the table interpreter (transitions.Machine semantics) and the submit Process events by correspondence; fakes for deferToThread/reactor/db/scan/git only. Modelled not verified: transitions.Machine semantics, background steps complete without raising. No axioms.',
+    'technique': 'Coq proof over source-generated table and source-generated method bodies (proved equal to the model) + invariants + model/implementation correspondence with case-controlled interleaving',
 }
 
 # pinned fingerprints of the hand-modelled functions (escalation only)
@@ -167,7 +167,7 @@ def run(ctx):
     ctx.trust(
         'translator tools/translate/dot2coq.py (own dot tokenizer cross-checked against pydot on every run; ast scan for call sites; fail closed)',
         'translator tools/translate/priority2coq.py (Priority.max, fail closed; validated by C12 on every priority list of length <= 3)',
-        'hand-written Model/Fsm.v (one function per FSM method) tied to the code by the event-by-event correspondence below',
+        'Model/Fsm.v (one function per FSM method): callbacks and completions proved equal to the translation of pl/state.py (Proofs/StateGenEq.v); the table interpreter fire/run_cbs (transitions.Machine) and the submit events tied by the event-by-event correspondence below',
         'driver fakes (outside world only): deferToThread/reactor.callLater -> case-scheduled thunks, db/scan/schedule.build/git/mail stubs, graphviz output',
     )
     ctx.assume(
